@@ -14,6 +14,7 @@ KINDS = {
     "step": (lockstep.gen_step_case, lockstep.coq_expr_x, lockstep.impl_lines_x, 3000),
     "dep": (lockstep.gen_dep_case, lockstep.coq_expr_d, lockstep.impl_lines_d, 4000),
     "cblock": (lockstep.gen_cblock_case, lockstep.coq_expr_c, lockstep.impl_lines_c, 1500),
+    "cstep": (lockstep.gen_cstep_case, lockstep.coq_expr_cx, lockstep.impl_lines_cx, 4000),
 }
 
 
@@ -54,6 +55,8 @@ def lockstep_compare(runs):
         cut = lockstep.cut_at_reraise(r) if k not in ("block", "cblock") else None
         if k == "cblock":
             d = lockstep.compare_noen(c, r, o)
+        elif k == "cstep":
+            d = lockstep.compare_noen_lines(il, o, lockstep.cut_at_reraise(lockstep.project_fs(r)))
         else:
             d = lockstep.compare_lines(il, o, cut) if k != "block" else lockstep.compare(c, r, o)
         if d:
